@@ -360,7 +360,7 @@ func runCheck(repo, verif, prop, tier string, verbose bool) int {
 		smtPath := strings.TrimSuffix(rp, ".json") + ".smt2"
 		os.WriteFile(smtPath, []byte(f.smt(true)), 0o644)
 		rec := map[string]interface{}{"property": prop, "obligation": name, "function": f.Fn, "position": f.Pos, "what": f.Note, "verdict": f.Verdict,
-			"backend": f.Backend, "solver_output": f.Model, "smt_query": smtPath, "failed_path_instances": len(g.failed), "path_instances": len(g.instances)}
+			"backend": f.Backend, "solver_output": truncate(f.Model, 20000), "witness": f.Values, "smt_query": smtPath, "failed_path_instances": len(g.failed), "path_instances": len(g.instances)}
 		suffix := ""
 		replayed := tryReplay(e, verif, repo, prop, f, rec)
 		if !replayed {
